@@ -364,6 +364,8 @@ func orderedLayout(r *rng, n int) Layout {
 			lf := LFile{Path: fmt.Sprintf("f%04d.yaml", len(l)), Docs: cur, List: r.chance(1, 3)}
 			if !lf.List && r.chance(1, 5) {
 				lf.Path, lf.JSON = fmt.Sprintf("f%04d.json", len(l)), true
+			} else if !lf.List {
+				lf.Dress = []int{0, 0, 0, 1, 2, 3}[r.intn(6)]
 			}
 			l = append(l, lf)
 			cur = []int{}
